@@ -148,6 +148,13 @@ func gitExec(c *Ctx, op string) {
 		os.WriteFile(filepath.Join(repo, "a"), []byte("dirty"), 0644)
 		os.WriteFile(filepath.Join(repo, "untracked"), []byte("u"), 0644)
 		gitCmd(repo, "add", "untracked")
+	case "norefs": // no branch, no tag: HEAD detached and every ref deleted; the object store holds every commit as before
+		gitCmd(repo, "checkout", "-q", "--detach", commits[0])
+		if out, e := gitCmd(repo, "for-each-ref", "--format=%(refname)"); e == nil {
+			for _, r := range strings.Fields(out) {
+				gitCmd(repo, "update-ref", "-d", r)
+			}
+		}
 	case "detach":
 		gitCmd(repo, "checkout", "-q", "--detach", commits[0])
 	}
@@ -225,7 +232,7 @@ func gitExec(c *Ctx, op string) {
 	case uerr != nil:
 		res = "err " + catOf(uerr)
 		cl := "git-unpack-failed"
-		if later == "detach" {
+		if later == "detach" || later == "norefs" {
 			cl = "git-detached-head"
 		}
 		c.PropFail(cl, "unpack of an existing commit failed: "+catOf(uerr)+": "+uerr.Error(), op)
@@ -361,7 +368,7 @@ func gitExec(c *Ctx, op string) {
 	}
 	// C10 for git wares: an earlier unpack of the same commit through the cache with an altering filter must not change
 	// what a later lossless unpack shows
-	if later != "detach" && uerr == nil && upan == "" {
+	if later != "detach" && later != "norefs" && uerr == nil && upan == "" {
 		auf := api.MustParseFilesetUnpackFilter("uid=7,gid=8,mtime=follow,sticky=follow,setid=follow,dev=follow")
 		luf := api.MustParseFilesetUnpackFilter(losslessUnpackStr)
 		safeCall(func() (api.WareID, error) {
@@ -385,7 +392,7 @@ func gitExec(c *Ctx, op string) {
 	}
 	// every commit at all later repository states, from the same process and the same warehouse address: the repository
 	// gains a commit after the unpacks above; that commit must unpack too
-	if later != "detach" {
+	if later != "detach" && later != "norefs" {
 		os.WriteFile(filepath.Join(repo, "added-later.txt"), []byte("later "+target), 0644)
 		gitCmd(repo, "add", "added-later.txt")
 		gitCmd(repo, "commit", "-q", "-m", "later")
@@ -407,7 +414,7 @@ func gitExec(c *Ctx, op string) {
 	}
 	// C20: a local warehouse that is itself a clone (has an origin) and lacks the requested commit must not be touched
 	// (no fetch into it): snapshot before / after
-	if later != "detach" {
+	if later != "detach" && later != "norefs" {
 		clone := filepath.Join(base, "clone")
 		if _, e := gitCmd(base, "clone", "-q", repo, clone); e == nil {
 			os.WriteFile(filepath.Join(repo, "upstream-only.txt"), []byte("u"), 0644)
@@ -682,7 +689,7 @@ func gitEngine(c *Ctx) {
 	gitNetExec(c, "gitnet 1")
 	gitConcurrent(c, "git-concurrent")
 	gitHostile(c, "git-hostile")
-	laters := []string{"none", "commit", "branch", "dirty", "detach"}
+	laters := []string{"none", "commit", "branch", "dirty", "detach", "norefs"}
 	filts := []string{losslessUnpackStr, losslessUnpackStr, "uid=mine,gid=mine,mtime=follow,sticky=follow,setid=follow,dev=follow", "uid=5,gid=6,mtime=@99,sticky=follow,setid=follow,dev=follow"}
 	gitExec(c, fmt.Sprintf("git %d none uid=follow,gid=follow,mtime=now,sticky=follow,setid=follow,dev=follow", c.Rand()%100000))
 	for k := 0; k < n; k++ {
